@@ -90,7 +90,10 @@ def rule_file_naming(ctx):
 
 from .c13 import rule_no_implicit_tx_calls  # noqa: E402  (work that was never committed must be absent afterwards)
 
+from .c14 import rule_typestate as rule_connect_typestate  # noqa: E402  (re-attaching a file must not disturb what it holds)
+
 RULES = [
+    ("C18.f", rule_connect_typestate, ("quick", "thorough")),
     ("C18.e", rule_no_implicit_tx_calls, ("quick", "thorough")),
     ("C18.a", rule_file_naming, ("quick", "thorough")),
     ("C18.b", rule_bootstrap, ("quick", "thorough")),
